@@ -240,10 +240,11 @@ def _inside_hashable_ctx(root, target):
     return bool(go(root, False))
 
 
-def mutate(rng, t, ids):
-    """(name, t2): t2 is a fresh-id copy of t changed in one aspect ('copy': unchanged)."""
+def mutate(rng, t, ids, only=None):
+    """(name, t2): t2 is a fresh-id copy of t changed in one aspect ('copy': unchanged; `only`: allowed mutations)."""
     t2 = fresh(t, ids)
-    for m in rng.sample(MUTATIONS, len(MUTATIONS)):
+    pool = list(only) if only else MUTATIONS
+    for m in rng.sample(pool, len(pool)):
         ns = nodes(t2)
         if m == "copy":
             return m, t2
